@@ -123,14 +123,15 @@ class C15(Property):
     technique = "Lean 4 bookkeeping model (exist+registered, distinct unless fixed, for every scheduling sequence) + observation of real scattered runs"
     level_text = "grade B, partial: bookkeeping proved (dirs exist and are registered right after scheduling; generated directories never collide); real file system and registry observed"
     level_note = "Lean kernel; file system, data manager and uuid4 are runtime / trusted"
-    quick_budget_s = 600
+    quick_budget_s = 2400        # room for one confirmation re-run of a timed-out case (5x its bound), see recov.run_confirmed
+    thorough_budget_s = 6000
     min_nontrivial = 4
 
     def explore(self, ctx: Ctx) -> None:
         quick = ctx.tier == "quick" and ctx.mode != "search"
         cases = gen_cases(ctx.rng, quick)
         lines, meta = [], []
-        for case, status, r in recov.run_cases(cases, timeout=300, workers=6):
+        for case, status, r in recov.run_cases(cases, timeout=300, workers=6, ctx=ctx):
             replay = {"recovery": case}
             if status != "ok":
                 ctx.fail("run:" + status, f"{case['name']}: {str(r)[:300]}", replay)
@@ -151,7 +152,7 @@ class C15(Property):
             meta.append((case, r))
         # ---- several locations per job, each with its own file system ------------------------------------------------
         mmeta = []
-        for case, status, r in pmap(multifs.run_case, multifs_cases(ctx.rng, quick), timeout=180, workers=4):
+        for case, status, r in recov.run_confirmed(ctx, multifs.run_case, multifs_cases(ctx.rng, quick), timeout=180, workers=4, inner_default=60):
             replay = {"multifs": case}
             if status != "ok":
                 ctx.fail("schedule:" + status, f"{case['name']}: {str(r)[:300]}", replay)
